@@ -1,7 +1,5 @@
 use crate::{datagram_pipe, downstream, forwarder, log_id, log_utils, net_utils, pipe};
 use async_trait::async_trait;
-use futures::future;
-use futures::future::Either;
 use std::collections::HashMap;
 use std::io;
 use std::sync::{Arc, Mutex};
@@ -251,22 +249,13 @@ impl<F: Fn(pipe::SimplexDirection, usize) + Send + Sync> DuplexPipe<F> {
             timeout,
         }
     }
+}
 
-    async fn exchange_once(&mut self) -> io::Result<()> {
-        let left = self.left_pipe.exchange();
-        futures::pin_mut!(left);
-        let right = self.right_pipe.exchange();
-        futures::pin_mut!(right);
-        match future::try_select(left, right).await {
-            Ok(_) => Ok(()),
-            Err(Either::Left((e, _))) | Err(Either::Right((e, _))) => Err(e),
-        }
-    }
+impl<F: Send + Sync> UdpPipeShared<F> {
+    fn on_timer_tick(&self, timeout: Duration) {
+        let last_unexpired_timestamp = Instant::now() - timeout;
 
-    fn on_timer_tick(&mut self) {
-        let last_unexpired_timestamp = Instant::now() - self.timeout;
-
-        let mut connections = self.left_pipe.shared.udp_connections.lock().unwrap();
+        let mut connections = self.udp_connections.lock().unwrap();
         let expired: Vec<_> = connections
             .iter()
             .filter(|(_, conn)| conn.last_activity < last_unexpired_timestamp)
@@ -277,10 +266,7 @@ impl<F: Fn(pipe::SimplexDirection, usize) + Send + Sync> DuplexPipe<F> {
             connections.remove(&meta);
             // the forwarder identifies a connection by the direction of its incoming
             // packets (peer -> client), see `RightPipe::exchange`
-            self.right_pipe
-                .shared
-                .forwarder_shared
-                .on_connection_closed(&meta.reversed());
+            self.forwarder_shared.on_connection_closed(&meta.reversed());
             log_id!(debug, id, "Connection expired: {:?}", meta);
         }
     }
@@ -291,10 +277,29 @@ impl<F: Fn(pipe::SimplexDirection, usize) + Send + Sync> datagram_pipe::DuplexPi
     for DuplexPipe<F>
 {
     async fn exchange(&mut self) -> io::Result<()> {
+        let shared = self.left_pipe.shared.clone();
+        let timeout = self.timeout;
+
+        // The client -> peer pipe is never restarted: a datagram it has read from the client
+        // but not yet handed to the peer (the first send on a fresh socket awaits
+        // writability) must not be lost when the timer fires.
+        let left = self.left_pipe.exchange();
+        futures::pin_mut!(left);
+
+        let period = std::cmp::max(timeout / 4, Duration::from_millis(1));
+        let mut ticks = tokio::time::interval_at(Instant::now() + period, period);
+        ticks.set_missed_tick_behavior(tokio::time::MissedTickBehavior::Delay);
+
         loop {
-            match tokio::time::timeout(self.timeout / 4, self.exchange_once()).await {
-                Ok(x) => return x,
-                Err(_) => self.on_timer_tick(),
+            // The peer -> client pipe holds no datagram across an await point; restarting
+            // it rebuilds its poll set, which releases the sockets of closed connections.
+            let right = self.right_pipe.exchange();
+            futures::pin_mut!(right);
+
+            tokio::select! {
+                x = &mut left => return x,
+                x = &mut right => return x,
+                _ = ticks.tick() => shared.on_timer_tick(timeout),
             }
         }
     }
